@@ -92,7 +92,7 @@ func vamanaCases(prop string, tier string, seed uint64) []fw.Case {
 			if vc.Quant == "pq" && r%4 != 0 {
 				continue
 			}
-			style := []string{"mixed", "small-insert-only", "mixed", "big-batches", "neighbourhoods"}[(r*len(vamanaConfigs)+i)%5]
+			style := []string{"mixed", "small-insert-only", "mixed", "big-batches", "neighbourhoods", "line"}[(r*len(vamanaConfigs)+i)%6]
 			if prop == "C03" && style == "big-batches" {
 				style = "mixed"
 			}
@@ -218,6 +218,11 @@ func runVamana(c fw.Case, env *fw.Env, prop string) *fw.CaseResult {
 	sv := schema["v"]
 	g := gen.New(c.Seed, schema)
 	g.PresentProb = 0.85
+	if style == "line" {
+		// sparse chain-like graph: small batches of collinear points
+		g.Line = true
+		g.PresentProb = 0.95
+	}
 	path := shardPath(env, "vamana")
 	cm := cache.NewManager(-1)
 	s, err := sx.Open(path, schema, cm, 0)
@@ -231,7 +236,14 @@ func runVamana(c fw.Case, env *fw.Env, prop string) *fw.CaseResult {
 	h := gen.NewHistory(g)
 	h.MaxBatch = 35
 	h.RejectProb = 0.06
+	if style == "line" {
+		h.MaxBatch = 4
+		h.WDelete = 4
+	}
 	steps := c.Int("steps", 12)
+	if style == "line" {
+		steps *= 3
+	}
 	insertOnly := style == "small-insert-only"
 	regimeCap := min(vc.Degree, 74) // the largest query searchSize is 75, so n <= searchSize-1 can be met up to 74
 	mutated := false                // a delete or vector update happened
